@@ -2,7 +2,8 @@
    Only statements here; every proof is `exact <lemma of Proofs/C04*.v>`.
    Vocabulary: Model/C04.v mirrors cache/cache_user.go and cache/uhash_loader.go (st = HashHead, NextInHash,
    Userid, Number, Loaded as total maps; add_to_uhash, remove_from_uhash, set_user_id, search_user_raw,
-   do_search_user_raw, load_uhash = LoadUHash with both branches, unload = Number, Loaded := 0).
+   do_search_user_raw, load_uhash = LoadUHash with both branches, load_uhash_by p = LoadUHash called by process p (p_is_new p = that
+   process created the segment), new_shm_existing / new_shm_create = NewSHM on an existing / a missing key, unload = Number, Loaded := 0).
    hd s h = HashHead[h], nx s x = NextInHash[x], idf s x = Userid[x]; chain nx p l = following nx from p visits
    exactly the nodes l and then reaches the -1 terminator; on_chain s x = x is a node of the chain of some bucket;
    id_eq_ci = equality of ids up to letter case (Cstrcasecmp == 0); uhash = StringHashWithHashBits. *)
@@ -53,6 +54,14 @@ Theorem C04_set_invalid : forall s uid id, ~ (1 <= uid <= MAXU) -> set_user_id s
 Proof. exact set_invalid. Qed.
 Print Assumptions C04_set_invalid.
 
+(* what "holds the queried id up to letter case" means below: id_eq_ci compares the WHOLE NUL-terminated ids (Cstrcasecmp == 0), so an id
+   never matches a proper prefix or a proper extension of itself - "bob" is not "bobgal", and the empty id is only the empty id *)
+Theorem C04_match_is_whole_id : forall a b,
+  (id_eq_ci a b = true <-> map tolower (cprefix a) = map tolower (cprefix b)) /\
+  (id_eq_ci a b = true -> length (cprefix a) = length (cprefix b)).
+Proof. exact (fun a b => conj (match_whole_id a b) (match_same_length a b)). Qed.
+Print Assumptions C04_match_is_whole_id.
+
 (* a lookup that answers a uid names an indexed slot holding the queried id up to letter case *)
 Theorem C04_search_sound : forall s q v, WF s -> do_search_user_raw s q = Ok v -> v <> 0 ->
   in_range (v - 1) = true /\ on_chain s (v - 1) /\ id_eq_ci q (idf s (v - 1)) = true.
@@ -90,6 +99,16 @@ Theorem C04_wf_cold_load : forall s0 recs, lenZ recs <= MAXU ->
 Proof. exact cold_load_wf. Qed.
 Print Assumptions C04_wf_cold_load.
 
+(* ... and that index is exactly the file's: record k sits in slot k and is on a chain, no other slot is indexed, ids beyond the
+   file keep their bytes (MAX_USERS <= PRE_ALLOCATED_USERS, so the cap on empty-id records never skips one) *)
+Theorem C04_cold_load_exact : forall s0 recs, lenZ recs <= MAXU ->
+  exists s', load_uhash (unload s0) recs = Ok s' /\ WF s' /\ number s' = lenZ recs /\ loaded s' = 1 /\
+    (forall k id, nth_error recs k = Some id -> idf s' (Z.of_nat k) = id) /\
+    (forall x, ~ (0 <= x < lenZ recs) -> idf s' x = idf s0 x) /\
+    (forall x, on_chain s' x <-> 0 <= x < lenZ recs).
+Proof. exact cold_load_exact. Qed.
+Print Assumptions C04_cold_load_exact.
+
 (* LoadUHash on a well-formed segment from a .PASSWDS that agrees with the live table keeps it well-formed ... *)
 Theorem C04_wf_reload : forall s recs, WF s -> lenZ recs <= MAXU -> agrees s recs ->
   exists s', load_uhash s recs = Ok s' /\ WF s' /\ number s' = lenZ recs.
@@ -101,6 +120,41 @@ Theorem C04_reload_keeps : forall s recs, WF s -> loaded s <> 0 -> lenZ recs <= 
   exists s', load_uhash s recs = Ok s' /\ WF s' /\ (forall x, idf s' x = idf s x) /\ (forall x, on_chain s x -> on_chain s' x).
 Proof. exact reload_keeps. Qed.
 Print Assumptions C04_reload_keeps.
+
+(* WHO loads does not matter: LoadUHash by any process p - the creator of the segment (IsNew) or a process that attached to a
+   segment somebody else created - (1) on ANY segment whose header says Number = Loaded = 0 (fresh and zeroed, created by
+   another process and never loaded, unloaded with garbage and cycles left behind) terminates with a well-formed, loaded index
+   that is exactly the file's (record k in slot k, on a chain; no other slot indexed);
+   (2) on a well-formed segment, from an agreeing .PASSWDS, terminates and keeps it well-formed. Afterwards every lookup terminates *)
+Theorem C04_load_any_process : forall (p : proc) s recs, lenZ recs <= MAXU ->
+  (number s = 0 -> loaded s = 0 ->
+     exists s', load_uhash_by p s recs = Ok s' /\ WF s' /\ number s' = lenZ recs /\ loaded s' = 1 /\ (forall q, exists v, search_user_raw s' q = Ok v) /\
+       (forall k id, nth_error recs k = Some id -> idf s' (Z.of_nat k) = id) /\ (forall x, on_chain s' x <-> 0 <= x < lenZ recs)) /\
+  (WF s -> agrees s recs ->
+     exists s', load_uhash_by p s recs = Ok s' /\ WF s' /\ number s' = lenZ recs /\ (forall q, exists v, search_user_raw s' q = Ok v)).
+Proof. exact load_any_process. Qed.
+Print Assumptions C04_load_any_process.
+
+(* the start-up interleaving / crash point between NewSHM and LoadUHash: the first process created the segment (zeroed, header
+   written, nothing loaded); a second process started with or without the create flag attaches to it, is NOT its creator, sees
+   an index that is not well-formed (every bucket is the self-loop 0 -> 0), and its LoadUHash terminates with the well-formed
+   index of .PASSWDS *)
+Theorem C04_second_process_loads_created_segment : forall (is_create : bool) recs, lenZ recs <= MAXU ->
+  exists p2 v, new_shm_existing is_create (snd new_shm_create) = (p2, Attached v) /\ p_is_new (fst new_shm_create) = true /\
+    p_is_new p2 = false /\ v = reset_st /\ ~ WF v /\
+    exists s', load_uhash_by p2 v recs = Ok s' /\ WF s' /\ number s' = lenZ recs /\ loaded s' = 1 /\
+      (forall q, exists u, search_user_raw s' q = Ok u) /\
+      (forall k id, nth_error recs k = Some id -> idf s' (Z.of_nat k) = id) /\ (forall x, on_chain s' x <-> 0 <= x < lenZ recs).
+Proof. exact second_process_loads_created_segment. Qed.
+Print Assumptions C04_second_process_loads_created_segment.
+
+(* ... and why that decision must follow the segment (Number / Loaded) and not the caller: on the created-but-not-loaded segment the
+   on-the-fly branch (checkHash) does not terminate - for every amount of fuel, not just the model's - whatever .PASSWDS holds *)
+Theorem C04_onfly_on_created_segment_hangs :
+  (forall fuel, check_walk fuel reset_st 0 false 0 (tget (head reset_st) 0) = Hang) /\
+  (forall recs, fill_uhash reset_st recs true = Hang).
+Proof. exact onfly_on_created_segment_hangs. Qed.
+Print Assumptions C04_onfly_on_created_segment_hangs.
 
 (* every history: cold load from anything, then any sequence of SetUserID (any uid), RemoveFromUHash, AddToUHash on a slot
    that is on no chain (the only way the code base calls it), and reloads from an agreeing file *)
@@ -129,3 +183,16 @@ Theorem C04_attach_refused : forall g, seg_version g <> cache.SHM_VERSION \/ seg
   forall v, attach g <> Attached v.
 Proof. exact attach_refused. Qed.
 Print Assumptions C04_attach_refused.
+
+(* every history in which each step - cold load of a segment saying Number = Loaded = 0, SetUserID, RemoveFromUHash, AddToUHash on a
+   free slot, reload from an agreeing file - is executed by ANY process (the creator or one that attached with or without the
+   create flag, m_attach): the index is well-formed, lookups are exact and terminate, and a further reload by any process returns *)
+Theorem C04_multi_process_exact : forall s, reachable_mp s ->
+  WF s /\
+  (forall q v, search_user_raw s q = Ok v -> v <> 0 -> on_chain s (v - 1) /\ id_eq_ci q (idf s (v - 1)) = true) /\
+  (forall x q, on_chain s x -> unique_ci s x -> id_eq_ci q (idf s x) = true -> nth 0 q 0 <> 0 -> search_user_raw s q = Ok (x + 1)) /\
+  (forall q, (forall y, on_chain s y -> id_eq_ci q (idf s y) = false) -> search_user_raw s q = Ok 0) /\
+  (forall q, exists v, search_user_raw s q = Ok v) /\
+  (forall (p : proc) recs, lenZ recs <= MAXU -> agrees s recs -> exists s', load_uhash_by p s recs = Ok s' /\ reachable_mp s').
+Proof. exact multi_process_exact. Qed.
+Print Assumptions C04_multi_process_exact.
